@@ -62,7 +62,7 @@ PROPS = {
             "proved: no term of the expression is missing from the result (for every leaf x of the tree the canonical string of x occurs in the result), none is invented (every returned string is the canonical string of some leaf of the tree), and the result is duplicate-free",
             "canonical spelling: the returned string of a term is reconT of its tree (contract of reconstructedLicenseString); that the id inside is the list's spelling is C09",
             "this check also discharges every obligation tagged C07 and C01: the self-satisfaction clause is a statement about Satisfies, whose verdict is proved to be semL(tree, allowed list) by those chains",
-            "proved (lemma coveredLeavesSatisfy, structural induction by cvc5): an allowed list that covers every leaf of a tree satisfies it; with matching reflexive (C02 lemmas) the self-satisfaction clause reduces to the round trip 'the canonical string of a term parses back to that term', which is the bounded part",
+            "proved (lemma coveredLeavesSatisfy, structural induction by cvc5): an allowed list that covers every leaf of a tree satisfies it; with matching reflexive (C02 lemmas) the self-satisfaction clause reduces to the round trip 'the canonical string of a term parses back to that term', which splits into a token level - PROVED: the canonical token sequence of a term (license id, '+' if flagged, WITH and the exception; [DocumentRef ':'] LicenseRef) is derived by the reference grammar from exactly that sequence and yields the term (lemmas leafTokensLic00/10/01/11, leafTokensRef0/1; with the parser contracts, parse returns that term) - and a lexical level (the canonical STRING lexes to that token sequence), which is the bounded part",
         ],
     },
     "C07": {
